@@ -268,6 +268,15 @@ pub struct SessionManager {
     /// one slot in the limit) and to drain a session's contributions on
     /// close. Same nesting rationale as above.
     cluster_ip_tracks: HashMap<Token, HashMap<String, HashSet<IpAddr>>>,
+    /// Slab keys released since the current batch of poll events started to
+    /// be dispatched. A slab key is the mio token of its socket, and the slab
+    /// hands a freed key out again at once. The events of a batch were all
+    /// harvested before the first of its handlers ran, so an event whose token
+    /// was released during the batch can only belong to the socket that was
+    /// closed, never to the one that took the key over (a socket registered
+    /// during the batch has no event in it). [`Server::ready`] drops such
+    /// events; see [`SessionManager::release`].
+    released_in_batch: HashSet<usize>,
 }
 
 impl SessionManager {
@@ -286,7 +295,33 @@ impl SessionManager {
             retry_after,
             connections_per_cluster_ip: HashMap::new(),
             cluster_ip_tracks: HashMap::new(),
+            released_in_batch: HashSet::new(),
         }))
+    }
+
+    /// Remove the entry stored under `key` and remember the key until the
+    /// current batch of poll events is over. Every removal from the slab goes
+    /// through here: the events still queued in the batch for that token
+    /// belong to the closed socket and must not reach whichever socket is
+    /// registered under the recycled key next.
+    pub fn release(&mut self, key: usize) -> Option<Rc<RefCell<dyn ProxySession>>> {
+        let removed = self.slab.try_remove(key);
+        if removed.is_some() {
+            self.released_in_batch.insert(key);
+        }
+        removed
+    }
+
+    /// A new batch of poll events is about to be dispatched: every socket that
+    /// is registered now was registered before the batch was harvested.
+    pub fn start_event_batch(&mut self) {
+        self.released_in_batch.clear();
+    }
+
+    /// Was `key` released while the current batch of poll events was being
+    /// dispatched? An event of that batch carrying the token is stale then.
+    pub fn released_in_batch(&self, key: usize) -> bool {
+        self.released_in_batch.contains(&key)
     }
 
     /// `(entries, sum, max, tracked sessions)` of the per-(cluster, source-IP)
@@ -1087,6 +1122,10 @@ impl Server {
 
             self.send_queue();
 
+            // From here on a released slab key marks the events of this batch
+            // that still carry it as stale (see `SessionManager::release`).
+            self.sessions.borrow_mut().start_event_batch();
+
             for event in events.iter() {
                 match event.token() {
                     // this is the command channel
@@ -1500,7 +1539,9 @@ impl Server {
         for token in &tokens {
             if self.sessions.borrow().slab.contains(token.0) {
                 let slab_before = self.sessions.borrow().slab.len();
-                let session = { self.sessions.borrow_mut().slab.remove(token.0) };
+                let Some(session) = self.sessions.borrow_mut().release(token.0) else {
+                    continue;
+                };
                 session.borrow_mut().close();
                 self.sessions.borrow_mut().decr();
                 // The removed token is truly gone afterwards. The slab may shrink
@@ -1530,8 +1571,7 @@ impl Server {
         let mut dangling_entries_count = 0;
         for entry_key in dangling_entries {
             let mut sessions = self.sessions.borrow_mut();
-            if sessions.slab.contains(entry_key) {
-                sessions.slab.remove(entry_key);
+            if sessions.release(entry_key).is_some() {
                 dangling_entries_count += 1;
             }
         }
@@ -2230,9 +2270,7 @@ impl Server {
                 for token in tokens {
                     self.accept_ready.remove(&ListenToken(token.0));
                     let mut sessions = self.sessions.borrow_mut();
-                    if sessions.slab.contains(token.0) {
-                        sessions.slab.remove(token.0);
-                    }
+                    sessions.release(token.0);
                     // The listener was counted when it was added, so the base
                     // count is at least 1 — the subtraction cannot underflow.
                     debug_assert!(
@@ -3167,6 +3205,18 @@ impl Server {
         trace!("PROXY\t{:?} got events: {:?}", token, events);
 
         let session_token = token.0;
+        // The token was released by a handler that ran earlier in this batch
+        // of poll events. The event was harvested before that: it is about the
+        // socket that was closed. If the slab key has been handed out again in
+        // the meantime, the new owner (say a backend connection that has just
+        // been opened) must not be told that its socket hung up.
+        if self.sessions.borrow().released_in_batch(session_token) {
+            trace!(
+                "PROXY\t{:?} dropping stale events {:?}: token released in this batch",
+                token, events
+            );
+            return;
+        }
         if self.sessions.borrow().slab.contains(session_token) {
             //info!("sessions contains {:?}", session_token);
             let protocol = self.sessions.borrow().slab[session_token]
@@ -3435,6 +3485,52 @@ mod accept_telemetry_tests {
             "expected at least 100 distinct buckets across 200 /24s, got {}",
             hits.len()
         );
+    }
+}
+
+#[cfg(test)]
+mod stale_event_tests {
+    use super::*;
+
+    fn entry() -> Rc<RefCell<dyn ProxySession>> {
+        Rc::new(RefCell::new(ListenSession {
+            protocol: Protocol::HTTPListen,
+        }))
+    }
+
+    /// A slab key released while a batch of poll events is dispatched stays
+    /// marked, also once the slab has handed it out again, until the next batch
+    /// starts: the events of the batch that carry it belong to the closed socket.
+    #[test]
+    fn released_key_stays_marked_until_the_next_batch() {
+        let sessions = SessionManager::new(Slab::with_capacity(8), 4, 0, 0);
+        let mut sessions = sessions.borrow_mut();
+        let _other = sessions.slab.insert(entry());
+        let key = sessions.slab.insert(entry());
+
+        sessions.start_event_batch();
+        assert!(!sessions.released_in_batch(key));
+        assert!(sessions.release(key).is_some());
+        assert!(sessions.released_in_batch(key));
+        assert!(!sessions.slab.contains(key));
+
+        // the slab recycles the key at once: this is the aliasing the mark is for
+        let reused = sessions.slab.insert(entry());
+        assert_eq!(reused, key, "the slab hands a freed key out again first");
+        assert!(
+            sessions.released_in_batch(key),
+            "an event of this batch for the recycled key is still about the closed socket"
+        );
+
+        // releasing a vacant key marks nothing
+        let vacant = sessions.slab.vacant_key();
+        assert!(sessions.release(vacant).is_none());
+        assert!(!sessions.released_in_batch(vacant));
+
+        // the next batch was harvested after the new socket was registered
+        sessions.start_event_batch();
+        assert!(!sessions.released_in_batch(key));
+        assert!(sessions.slab.contains(key));
     }
 }
 
